@@ -169,6 +169,9 @@ for fl in (1, 2):
         _u06.append(_pm('C06_vine.cpp', 'v_%s_pos_late_%s' % (_FL[fl], col.lower()), col=col, flavour=fl, idx=1, vine=1, m=5, extra=['VP_K=3', 'VP_LATE=2', 'VP_NORESERVE'], weight=8, must=('end', 'swap', 'insert')))
 _u06.append(_pm('C06_vine.cpp', 'v_chain_id_rm_k3', flavour=2, idx=2, vine=1, rows=1, removable=1, m=4, extra=['VP_K=3'], weight=12, must=('end', 'swap', 'remove_maximal_cell', 'insert')))
 _u06.append(_pm('C06_vine.cpp', 'v_chain_pos_rm_k3', flavour=2, idx=1, vine=1, rows=1, removable=1, m=4, extra=['VP_K=3'], weight=12, must=('end', 'swap', 'remove_maximal_cell', 'insert')))
+_u06.append(_pm('C06_vine.cpp', 'v_ru_pos_nobarcode_rmlast_vector_container', flavour=1, idx=1, vine=1, removable=1, m=4, extra=['VP_K=3', 'VP_MAPC=0', 'VP_BARCODE=0'], weight=12, must=('end', 'swap', 'remove_maximal_cell', 'insert')))
+_u06.append(_pm('C06_vine.cpp', 'v_ru_pos_nobarcode_rm', flavour=1, idx=1, vine=1, removable=1, m=4, extra=['VP_K=3', 'VP_BARCODE=0'], weight=12, must=('end', 'swap', 'remove_maximal_cell', 'insert')))
+_kf6b = _pm('C06_vine.cpp', 'v_ru_pos_nobarcode_rm_kf', flavour=1, idx=1, vine=1, removable=1, m=4, extra=['VP_K=3', 'VP_BARCODE=0', 'VP_KF_RU_RM'], weight=8, must=()); _kf6b['kf'] = 'C06-ru-swap-after-inner-removal'; _u06.append(_kf6b)
 _u06.append(_pm('C06_vine.cpp', 'v_ru_pos_rmlast_vector_container', flavour=1, idx=1, vine=1, removable=1, m=4, extra=['VP_K=3', 'VP_MAPC=0'], weight=12, must=('end', 'swap', 'remove_maximal_cell', 'insert')))
 _u06.append(_pm('C06_vine.cpp', 'v_chain_pos_m5k3', flavour=2, idx=1, vine=1, m=5, extra=['VP_K=3'], weight=10, must=('end', 'swap')))
 for ci, col in enumerate(_COLS):
